@@ -122,7 +122,7 @@ def validate_traces(module, cfg, traces, *, consts=None, timeout=1800, tag='V', 
     try:
         path = os.path.join(d, 'traces.json')
         with open(path, 'w') as f:
-            json.dump(traces, f)
+            json.dump(_nonull(traces), f)
         env = {'TRACE_FILE': path}
         if extra_env:
             env.update(extra_env)
@@ -139,6 +139,17 @@ def validate_traces(module, cfg, traces, *, consts=None, timeout=1800, tag='V', 
         return verdicts, res
     finally:
         shutil.rmtree(d, ignore_errors=True)
+
+
+def _nonull(x):
+    """TLC's JsonDeserialize rejects null: the sentinel "~" stands for None"""
+    if x is None:
+        return '~'
+    if isinstance(x, dict):
+        return {k: _nonull(v) for k, v in x.items()}
+    if isinstance(x, (list, tuple)):
+        return [_nonull(v) for v in x]
+    return x
 
 
 def simulate(module, cfg, *, num, depth, seed, timeout=600, spec_dir=SPEC_DIR, cfg_text=None, extra=()):
